@@ -5,6 +5,7 @@
    Output: the table of method plans (Plan.v) or a diagnostic class. *)
 From Coq Require Import List NArith Bool String DecimalString.
 From GV Require Import Base Ty Conf Extracted Plan.
+(* custom functions: Plan.fdecl / ftable (roles assigned by Funcs.fdecl_of) *)
 Import ListNotations.
 Open Scope N_scope.
 
@@ -19,9 +20,17 @@ Definition D_UNKNOWN_FIELD : N := 26.   Definition D_OVERLAP_SETTINGS : N := 27.
 Definition D_OVERLAP_SIGNATURE : N := 28. Definition D_FIELD_SETTING_TARGET : N := 29.
 Definition D_USE_METHOD : N := 30.      Definition D_ENUM : N := 31.
 Definition D_UPDATE_SHAPE : N := 32.    Definition D_UNMODELLED : N := 99.
+Definition D_CONTEXT_UNSAT : N := 33.   (* a function / method for the pair exists but needs contexts the method cannot supply *)
+Definition D_CONTEXT_REQUIRED : N := 34. (* CallMethod: could not satisfy all required context parameters *)
+Definition D_ERR_NOT_RETURNED : N := 35. (* used method returns error but conversion method does not *)
+Definition D_DELEGATE_ERR : N := 36.    (* extend function with error behind a declared method without *)
+Definition D_CALL_SOURCE : N := 37.     (* method source type mismatches with conversion source *)
+Definition D_CALL_TARGET : N := 38.     (* method return type mismatches with target *)
+Definition D_STRUCT_METHOD : N := 39.   (* error parsing struct method *)
 
 (* ---------------- state ---------------- *)
-Record bst := { b_tab : table; b_names : list rstr; b_seen : list N; b_types : list ty }.
+Record bst := { b_tab : table; b_names : list rstr; b_seen : list N; b_types : list ty;
+                b_ctor : bool (* ctx.UseConstructor: default FUNC not applied yet *) }.
 Definition M (A : Type) := bst -> gres (A * bst).
 Definition ret {A} (a : A) : M A := fun s => GOk (a, s).
 Definition fail {A} (c : N) : M A := fun _ => GDiag c.
@@ -29,26 +38,51 @@ Definition mbind {A B} (m : M A) (f : A -> M B) : M B :=
   fun s => match m s with GOk (a, s') => f a s' | GDiag c => GDiag c | GPanic p => GPanic p | GFuel => GFuel end.
 Notation "'let!' x ':=' m 'in' k" := (mbind m (fun x => k)) (at level 200, x pattern, m at level 100, k at level 200).
 
-Record bctx := { bc_id : N; bc_conf : mconf; bc_ftarget : ty; bc_ssig : ty; bc_tsig : ty }.
+Record bctx := { bc_id : N; bc_conf : mconf; bc_ftarget : ty; bc_ssig : ty; bc_tsig : ty;
+                 bc_avail : N;             (* the method whose context set is ctx.AvailableContext (a shared map) *)
+                 bc_context : list ty }.   (* ctx.Context: context variables declared by the method being built *)
 
 Section gen.
   Variable e : env.
   Variable conv_common : common.   (* converter-level settings: what generated sub-methods get *)
   Variable out_pkg : N.            (* output package *)
+  Variable FT : ftable.            (* custom functions by index *)
+  Variable ext : list N.           (* generator.extend: registered extend functions (setup.go), registration order *)
+  Variable smeths : list (N * rstr * N).   (* (named type, method name, function): argument-less methods usable as sources *)
 
   Definition sub_conf : mconf :=
     {| m_common := conv_common; m_fields := []; m_automap := []; m_raw_field_settings := false;
        m_UpdateTarget := false; m_constructor := None |}.
 
-  (* ---- method table ---- *)
+  (* ---- method table (method.Index: entries by signature; Get returns the first whose contexts are available) ---- *)
   Definition sig_matches (m : gmethod) (s t : ty) : bool := negb (g_update m) && ty_eqb (g_src m) s && ty_eqb (g_tgt m) t.
-  Fixpoint find_from (tab : table) (i : N) (s t : ty) : option N :=
+  Definition ctx_sub (req avail : list ty) : bool := forallb (fun t => existsb (ty_eqb t) avail) req.
+  Inductive getres := GFound (i : N) | GUnsat | GAbsent.
+  Fixpoint tab_scan (tab : table) (i : N) (s t : ty) (avail : list ty) (hit : bool) : getres :=
     match tab with
-    | [] => None
-    | m :: r => if sig_matches m s t then Some i else find_from r (i + 1) s t
+    | [] => if hit then GUnsat else GAbsent
+    | m :: r => if sig_matches m s t
+                then if ctx_sub (g_ctx m) avail then GFound i else tab_scan r (i + 1) s t avail true
+                else tab_scan r (i + 1) s t avail hit
     end.
-  Definition find_method (tab : table) (s t : ty) : option N := find_from tab 0 s t.
-  Definition has_method (tab : table) (s t : ty) : bool := existsb (fun m => sig_matches m s t) tab.
+  Definition tab_get (tab : table) (s t : ty) (avail : list ty) : getres := tab_scan tab 0 s t avail false.
+  Definition find_method (tab : table) (s t : ty) : option N :=
+    match tab_get tab s t [] with GFound i => Some i | _ => None end.
+  Definition fdecl_at (f : N) : option fdecl := nth_error FT (N.to_nat f).
+  Definition fn_sig_matches (f : N) (s t : ty) : bool :=
+    match fdecl_at f with
+    | Some d => match fd_src d with Some s' => ty_eqb s' s && ty_eqb (fd_tgt d) t | None => false end
+    | None => false
+    end.
+  Definition fn_ctx (f : N) : list ty := match fdecl_at f with Some d => fd_ctx d | None => [] end.
+  Definition ext_get (s t : ty) (avail : list ty) : getres :=
+    match filter (fun f => fn_sig_matches f s t) ext with
+    | [] => GAbsent
+    | hits => match find (fun f => ctx_sub (fn_ctx f) avail) hits with Some f => GFound f | None => GUnsat end
+    end.
+  (* generator.hasMethod: by signature only *)
+  Definition has_method (tab : table) (s t : ty) : bool :=
+    existsb (fun f => fn_sig_matches f s t) ext || existsb (fun m => sig_matches m s t) tab.
 
   Fixpoint update_nth {A} (n : nat) (f : A -> A) (l : list A) : list A :=
     match l, n with
@@ -58,19 +92,30 @@ Section gen.
     end.
   Definition set_dirty (d : bool) (m : gmethod) : gmethod :=
     {| g_name := g_name m; g_src := g_src m; g_tgt := g_tgt m; g_explicit := g_explicit m; g_dirty := d;
-       g_update := g_update m; g_conf := g_conf m; g_origin := g_origin m; g_body := g_body m; g_types := g_types m |}.
+       g_update := g_update m; g_conf := g_conf m; g_origin := g_origin m; g_ctx := g_ctx m; g_ret_err := g_ret_err m; g_body := g_body m; g_types := g_types m |}.
   Definition set_body (b : body) (ts : list ty) (m : gmethod) : gmethod :=
     {| g_name := g_name m; g_src := g_src m; g_tgt := g_tgt m; g_explicit := g_explicit m; g_dirty := g_dirty m;
-       g_update := g_update m; g_conf := g_conf m; g_origin := g_origin m; g_body := Some b; g_types := ts |}.
+       g_update := g_update m; g_conf := g_conf m; g_origin := g_origin m; g_ctx := g_ctx m; g_ret_err := g_ret_err m; g_body := Some b; g_types := ts |}.
+  (* requireContext / ReturnError retrofit a generated method and mark it for re-generation *)
+  Definition add_ctx (need : ty) (m : gmethod) : gmethod :=
+    {| g_name := g_name m; g_src := g_src m; g_tgt := g_tgt m; g_explicit := g_explicit m; g_dirty := true;
+       g_update := g_update m; g_conf := g_conf m; g_origin := g_origin m; g_ctx := g_ctx m ++ [need]; g_ret_err := g_ret_err m; g_body := g_body m; g_types := g_types m |}.
+  Definition add_err (m : gmethod) : gmethod :=
+    {| g_name := g_name m; g_src := g_src m; g_tgt := g_tgt m; g_explicit := g_explicit m; g_dirty := true;
+       g_update := g_update m; g_conf := g_conf m; g_origin := g_origin m; g_ctx := g_ctx m; g_ret_err := true; g_body := g_body m; g_types := g_types m |}.
+  Definition set_tab (tab : table) (s : bst) : bst :=
+    {| b_tab := tab; b_names := b_names s; b_seen := b_seen s; b_types := b_types s; b_ctor := b_ctor s |}.
+  Definition set_ctor (c : bool) (s : bst) : bst :=
+    {| b_tab := b_tab s; b_names := b_names s; b_seen := b_seen s; b_types := b_types s; b_ctor := c |}.
 
   (* the emitted code renders type t here (variable declaration, make, cast, zero literal) *)
   Definition note_ty (t : ty) : M unit :=
-    fun s => GOk (tt, {| b_tab := b_tab s; b_names := b_names s; b_seen := b_seen s; b_types := t :: b_types s |}).
+    fun s => GOk (tt, {| b_tab := b_tab s; b_names := b_names s; b_seen := b_seen s; b_types := t :: b_types s; b_ctor := b_ctor s |}).
   (* xtype.ZeroValue renders a type only for structs and arrays *)
   Definition zero_renders (t : ty) : bool := f_Struct e t || f_ListFixed e t.
 
   Definition mark_dirty (id : N) : M unit :=
-    fun s => GOk (tt, {| b_tab := update_nth (N.to_nat id) (set_dirty true) (b_tab s); b_names := b_names s; b_seen := b_seen s; b_types := b_types s |}).
+    fun s => GOk (tt, {| b_tab := update_nth (N.to_nat id) (set_dirty true) (b_tab s); b_names := b_names s; b_seen := b_seen s; b_types := b_types s; b_ctor := b_ctor s |}).
 
   (* ---- namer.Name on the file-level namer ---- *)
   Definition dec (n : N) : rstr := s2r (NilEmpty.string_of_uint (N.to_uint n)).
@@ -141,17 +186,32 @@ Section gen.
     end.
   Definition split_dot (l : rstr) : list rstr := split_dot_aux [] l.
 
-  (* walking a source path (mapField): returns steps, final type, whether a pointer was crossed *)
-  Fixpoint walk_path (path : list rstr) (cur : ty) (crossed : bool) (acc : list (bool * N)) : gres (list (bool * N) * ty * bool) :=
+  Definition smeth_of (t : ty) (name : rstr) : option N :=
+    match t with
+    | TNamed id => match find (fun x => (fst (fst x) =? id) && rstr_eqb (snd (fst x)) name) smeths with Some x => Some (snd x) | None => None end
+    | _ => None
+    end.
+
+  (* walking a source path (mapField): returns steps, final type, whether a pointer was crossed, and the
+     function when the last element is a method of the value reached *)
+  Fixpoint walk_path (path : list rstr) (cur : ty) (crossed : bool) (acc : list (bool * N)) : gres (list (bool * N) * ty * bool * option N) :=
     match path with
-    | [] => GOk (rev acc, cur, crossed)
+    | [] => GOk (rev acc, cur, crossed, None)
     | name :: r =>
       let d := f_Pointer e cur in
       let cur1 := if d then f_PointerInner e cur else cur in
       if negb (f_Struct e cur1) then GDiag D_BAD_PATH
       else match find_exact cur1 name with
            | Some (i, t) => walk_path r t (crossed || d) ((d, i) :: acc)
-           | None => if exact_is_method cur1 name then GDiag D_UNMODELLED else GDiag D_BAD_PATH
+           | None => if exact_is_method cur1 name
+                     then match r with
+                          | [] => match smeth_of cur1 name with
+                                  | Some f => GOk (rev acc, cur, crossed || d, Some f)
+                                  | None => GDiag D_UNMODELLED
+                                  end
+                          | _ => GDiag D_BAD_PATH          (* cannot access a field on a method value *)
+                          end
+                     else GDiag D_BAD_PATH
            end
     end.
 
@@ -191,17 +251,20 @@ Section gen.
   Definition defined_fields (ctx : bctx) (target : ty) : list rstr :=
     if negb (ty_eqb (bc_ftarget ctx) target) then [] else map fst (m_fields (bc_conf ctx)).
 
+  Definition avail_of_tab (tab : table) (ctx : bctx) : list ty :=
+    match nth_error tab (N.to_nat (bc_avail ctx)) with Some m => g_ctx m | None => [] end.
+
   (* getOverlappingStructDefinition *)
   Definition overlap_check (ctx : bctx) (tab : table) (s t : ty) : bool :=
     if negb (f_Struct e s && f_Struct e t) then false
     else existsb (fun sig : ty * ty =>
                     negb (ty_eqb (bc_ssig ctx) (fst sig) && ty_eqb (bc_tsig ctx) (snd sig)) &&
-                    match find_method tab (fst sig) (snd sig) with
-                    | Some id => match nth_error tab (N.to_nat id) with
-                                 | Some m => m_raw_field_settings (g_conf m)
-                                 | None => false
-                                 end
-                    | None => false
+                    match tab_get tab (fst sig) (snd sig) (avail_of_tab tab ctx) with
+                    | GFound id => match nth_error tab (N.to_nat id) with
+                                   | Some m => m_raw_field_settings (g_conf m)
+                                   | None => false
+                                   end
+                    | _ => false
                     end)
                  [(TPtr s, t); (TPtr s, TPtr t); (s, TPtr t)].
 
@@ -222,7 +285,7 @@ Section gen.
         else false in
       let tab' := if seen then update_nth (N.to_nat (bc_id ctx)) (set_dirty true) (b_tab st) else b_tab st in
       let seen' := match named_id with Some id => id :: b_seen st | None => b_seen st end in
-      GOk (create, {| b_tab := tab'; b_names := b_names st; b_seen := seen'; b_types := b_types st |}).
+      GOk (create, {| b_tab := tab'; b_names := b_names st; b_seen := seen'; b_types := b_types st; b_ctor := b_ctor st |}).
 
   Definition first_rule (hm : ty -> ty -> bool) (conf : mconf) (s t : ty) : option N :=
     find (fun r => x_matches r e hm conf s t) x_build_steps.
@@ -244,17 +307,130 @@ Section gen.
   Definition aliasing (lv : N) (p : vplan) : bool :=
     (lv =? LV_HEAP) && match p with PShare => true | _ => false end.
 
+  (* ---------------- calling methods and custom functions (generator.CallMethod) ---------------- *)
+  (* types.AssignableTo for the generated fragment: identical, or identical underlying types with at most one named *)
+  Definition assignable (a b : ty) : bool :=
+    ty_eqb a b || (ty_eqb (under e a) (under e b) && (negb (f_Named e a) || negb (f_Named e b))).
+
+  Definition origin_path (tab : table) (id : N) : list N :=
+    id :: match nth_error tab (N.to_nat id) with Some m => g_origin m | None => [] end.
+
+  (* requireContext: walk the method and the chain of methods that caused it *)
+  Fixpoint retro_ctx (need : ty) (path : list N) (tab : table) : option table :=
+    match path with
+    | [] => Some tab
+    | id :: r => match nth_error tab (N.to_nat id) with
+                 | None => Some tab
+                 | Some m => if existsb (ty_eqb need) (g_ctx m) then retro_ctx need r tab
+                             else if g_explicit m then None
+                             else retro_ctx need r (update_nth (N.to_nat id) (add_ctx need) tab)
+                 end
+    end.
+  Definition require_context (ctx : bctx) (need : ty) : M bool :=
+    fun st => if existsb (ty_eqb need) (bc_context ctx) then GOk (true, st)
+              else match retro_ctx need (origin_path (b_tab st) (bc_id ctx)) (b_tab st) with
+                   | Some tab => GOk (true, set_tab tab st)
+                   | None => GOk (false, st)
+                   end.
+
+  (* generator.ReturnError *)
+  Fixpoint retro_err (path : list N) (tab : table) : option table :=
+    match path with
+    | [] => Some tab
+    | id :: r => match nth_error tab (N.to_nat id) with
+                 | None => Some tab
+                 | Some m => if g_ret_err m then retro_err r tab
+                             else if g_explicit m then None
+                             else retro_err r (update_nth (N.to_nat id) add_err tab)
+                 end
+    end.
+  Definition return_error (ctx : bctx) : M bool :=
+    fun st => match nth_error (b_tab st) (N.to_nat (bc_id ctx)) with
+              | Some m => if g_ret_err m then GOk (true, st)
+                          else match retro_err (origin_path (b_tab st) (bc_id ctx)) (b_tab st) with
+                               | Some tab => GOk (true, set_tab tab st)
+                               | None => GOk (false, st)
+                               end
+              | None => GPanic 2
+              end.
+
+  Fixpoint check_args (ctx : bctx) (args : list argsrc) (dsrc : option ty) (s : option ty) : M unit :=
+    match args with
+    | [] => ret tt
+    | ArgConv :: r => check_args ctx r dsrc s
+    | ArgCtx t :: r => let! ok := require_context ctx t in if ok then check_args ctx r dsrc s else fail D_CONTEXT_REQUIRED
+    | ArgSource :: r => match dsrc, s with
+                        | Some ds, Some s' => if assignable s' ds then check_args ctx r dsrc s else fail D_CALL_SOURCE
+                        | _, _ => fun _ => GPanic 3      (* source argument without a source expression *)
+                        end
+    end.
+
+  Definition call_method (ctx : bctx) (c : callee) (args : list argsrc) (dsrc : option ty) (dtgt : ty) (derr : bool)
+             (s : option ty) (t : ty) : M vplan :=
+    let! _ := check_args ctx args dsrc s in
+    if negb (assignable dtgt t) then fail D_CALL_TARGET
+    else if derr then (let! ok := return_error ctx in if ok then ret (PCallX c args true) else fail D_ERR_NOT_RETURNED)
+    else ret (match c, args with
+              | CMeth m, [ArgSource] => PCall m
+              | _, _ => PCallX c args false
+              end).
+
+  Definition call_fn (ctx : bctx) (f : N) (s : option ty) (t : ty) : M vplan :=
+    match fdecl_at f with
+    | Some d => call_method ctx (CFn f) (fd_args d) (fd_src d) (fd_tgt d) (fd_err d) s t
+    | None => fun _ => GPanic 4
+    end.
+  Definition call_meth (ctx : bctx) (id : N) (s t : ty) : M vplan :=
+    fun st => match nth_error (b_tab st) (N.to_nat id) with
+              | Some m => call_method ctx (CMeth id) (ArgSource :: map ArgCtx (g_ctx m)) (Some (g_src m)) (g_tgt m) (g_ret_err m) (Some s) t st
+              | None => GPanic 5
+              end.
+
+  (* generator.callExisting: extend functions first, then declared / generated methods *)
+  Definition call_existing (ctx : bctx) (s t : ty) : M (option vplan) :=
+    fun st =>
+      let avail := avail_of_tab (b_tab st) ctx in
+      match ext_get s t avail with
+      | GFound f => (let! p := call_fn ctx f (Some s) t in ret (Some p)) st
+      | GUnsat => GDiag D_CONTEXT_UNSAT
+      | GAbsent => match tab_get (b_tab st) s t avail with
+                   | GFound id => (let! p := call_meth ctx id s t in ret (Some p)) st
+                   | GUnsat => GDiag D_CONTEXT_UNSAT
+                   | GAbsent => GOk (None, st)
+                   end
+      end.
+
+  (* builder/default.go buildTargetVar: the variable a BuildByAssign rule fills *)
+  Inductive tvar := TVZero | TVCtor (init : vplan) (to_ptr : bool).
+  Definition target_var (ctx : bctx) (s t : ty) : M tvar :=
+    fun st =>
+      if negb (b_ctor st) || negb (ty_eqb (bc_ssig ctx) s) || negb (ty_eqb (bc_tsig ctx) t)
+      then (let! _ := note_ty t in ret TVZero) st
+      else match m_constructor (bc_conf ctx) with
+           | None => GPanic 6
+           | Some f =>
+             match fdecl_at f with
+             | None => GPanic 4
+             | Some d =>
+               let to_ptr := f_Pointer e t && negb (f_Pointer e (fd_tgt d)) in
+               let call_t := if to_ptr then f_PointerInner e t else t in
+               (let! p := call_fn ctx f (Some s) call_t in ret (TVCtor p to_ptr)) (set_ctor false st)
+             end
+           end.
+  Definition of_assign (tv : tvar) (t : ty) (a : aplan) : vplan :=
+    match tv with TVZero => POfAssign t a | TVCtor init to_ptr => PInit init to_ptr a end.
+
   (* ---------------- the mutually recursive core ---------------- *)
   Fixpoint build (fuel : nat) (ctx : bctx) (srcvar : N) (s t : ty) {struct fuel} : M vplan :=
     match fuel with
     | O => fun _ => GFuel
     | S f =>
-      fun st =>
-      match find_method (b_tab st) s t with
-      | Some id => GOk (PCall id, st)
+      let! ex := call_existing ctx s t in
+      match ex with
+      | Some p => ret p
       | None =>
-        (let! sub := should_sub ctx s t in
-         if sub then create_sub f ctx s t else build_no_lookup f ctx srcvar s t) st
+        let! sub := should_sub ctx s t in
+        if sub then create_sub f ctx s t else build_no_lookup f ctx srcvar s t
       end
     end
   with assign (fuel : nat) (ctx : bctx) (must : bool) (srcvar : N) (is_update : bool) (s t : ty) {struct fuel} : M aplan :=
@@ -262,13 +438,14 @@ Section gen.
     | O => fun _ => GFuel
     | S f =>
       if must then (let! p := build f ctx srcvar s t in ret (ASet p))
-      else fun st =>
-      match find_method (b_tab st) s t with
-      | Some id => GOk (ASet (PCall id), st)
+      else
+      let! ex := call_existing ctx s t in
+      match ex with
+      | Some p => ret (ASet p)
       | None =>
-        (let! sub := should_sub ctx s t in
-         if sub then (let! p := create_sub f ctx s t in ret (ASet p))
-         else assign_no_lookup f ctx srcvar is_update s t) st
+        let! sub := should_sub ctx s t in
+        if sub then (let! p := create_sub f ctx s t in ret (ASet p))
+        else assign_no_lookup f ctx srcvar is_update s t
       end
     end
   with create_sub (fuel : nat) (ctx : bctx) (s t : ty) {struct fuel} : M vplan :=
@@ -278,16 +455,16 @@ Section gen.
       fun st =>
         let name := fresh_name (b_names st) (unescaped_id e s ++ s2r "To"%string ++ title (unescaped_id e t)) in
         let id := N.of_nat (List.length (b_tab st)) in
-        let origin := match nth_error (b_tab st) (N.to_nat (bc_id ctx)) with Some m => bc_id ctx :: g_origin m | None => [bc_id ctx] end in
         let m := {| g_name := name; g_src := s; g_tgt := t; g_explicit := false; g_dirty := false; g_update := false;
-                    g_conf := sub_conf; g_origin := origin; g_body := None; g_types := [] |} in
-        let st1 := {| b_tab := b_tab st ++ [m]; b_names := name :: b_names st; b_seen := []; b_types := [] |} in
-        match build_method f id st1 with
-        | GOk (_, st2) => GOk (PCall id, {| b_tab := b_tab st2; b_names := b_names st2; b_seen := b_seen st; b_types := b_types st |})
+                    g_conf := sub_conf; g_origin := origin_path (b_tab st) (bc_id ctx); g_ctx := []; g_ret_err := false;
+                    g_body := None; g_types := [] |} in
+        let st1 := {| b_tab := b_tab st ++ [m]; b_names := name :: b_names st; b_seen := []; b_types := []; b_ctor := false |} in
+        match build_method f id (bc_avail ctx) st1 with
+        | GOk (_, st2) => call_meth ctx id s t {| b_tab := b_tab st2; b_names := b_names st2; b_seen := b_seen st; b_types := b_types st; b_ctor := b_ctor st |}
         | GDiag c => GDiag c | GPanic p => GPanic p | GFuel => GFuel
         end
     end
-  with build_method (fuel : nat) (id : N) {struct fuel} : M unit :=
+  with build_method (fuel : nat) (id : N) (avail : N) {struct fuel} : M unit :=
     match fuel with
     | O => fun _ => GFuel
     | S f =>
@@ -295,8 +472,13 @@ Section gen.
       match nth_error (b_tab st) (N.to_nat id) with
       | None => GPanic 1
       | Some m =>
-        let ctx := {| bc_id := id; bc_conf := g_conf m; bc_ftarget := fields_target (g_tgt m); bc_ssig := g_src m; bc_tsig := g_tgt m |} in
-        let st0 := {| b_tab := b_tab st; b_names := b_names st; b_seen := []; b_types := [g_tgt m; g_src m] |} in
+        let ctx := {| bc_id := id; bc_conf := g_conf m; bc_ftarget := fields_target (g_tgt m); bc_ssig := g_src m; bc_tsig := g_tgt m;
+                      bc_avail := avail; bc_context := g_ctx m |} in
+        let st0 := {| b_tab := b_tab st; b_names := b_names st; b_seen := []; b_types := [g_tgt m; g_src m] ++ g_ctx m;
+                      b_ctor := match m_constructor (g_conf m) with Some _ => true | None => false end |} in
+        let finish (b : body) (st1 : bst) : gres (unit * bst) :=
+          GOk (tt, {| b_tab := update_nth (N.to_nat id) (set_body b (b_types st1)) (b_tab st1); b_names := b_names st1;
+                      b_seen := b_seen st; b_types := b_types st; b_ctor := b_ctor st |}) in
         if g_update m then
           (* convertTo *)
           let s := g_src m in let t := g_tgt m in
@@ -307,15 +489,26 @@ Section gen.
             else
               let s' := if sp then f_PointerInner e s else s in
               match struct_assign f ctx (if sp then LV_DEREF else LV_LOCAL) false s' (f_PointerInner e t) st0 with
-              | GOk (a, st1) =>
-                let a' := if sp then AIfNotNil a else a in
-                GOk (tt, {| b_tab := update_nth (N.to_nat id) (set_body (BUpd a') (b_types st1)) (b_tab st1); b_names := b_names st1; b_seen := b_seen st; b_types := b_types st |})
+              | GOk (a, st1) => finish (BUpd (if sp then AIfNotNil a else a)) st1
               | GDiag c => GDiag c | GPanic p => GPanic p | GFuel => GFuel
               end
         else
-          match build_no_lookup f ctx LV_LOCAL (g_src m) (g_tgt m) st0 with
-          | GOk (p, st1) => GOk (tt, {| b_tab := update_nth (N.to_nat id) (set_body (BVal p) (b_types st1)) (b_tab st1); b_names := b_names st1; b_seen := b_seen st; b_types := b_types st |})
-          | GDiag c => GDiag c | GPanic p => GPanic p | GFuel => GFuel
+          match ext_get (g_src m) (g_tgt m) (avail_of_tab (b_tab st) ctx) with
+          | GFound fi =>
+            (* delegateMethod: return f(args) *)
+            match fdecl_at fi with
+            | None => GPanic 4
+            | Some d =>
+              if negb (forallb (fun a => match a with ArgCtx t => existsb (ty_eqb t) (g_ctx m) | _ => true end) (fd_args d)) then GPanic 7
+              else if fd_err d && negb (g_ret_err m) then GDiag D_DELEGATE_ERR
+              else finish (BTail (PCallX (CFn fi) (fd_args d) (fd_err d))) st0
+            end
+          | GUnsat => GDiag D_CONTEXT_UNSAT
+          | GAbsent =>
+            match build_no_lookup f ctx LV_LOCAL (g_src m) (g_tgt m) st0 with
+            | GOk (p, st1) => finish (BVal p) st1
+            | GDiag c => GDiag c | GPanic p => GPanic p | GFuel => GFuel
+            end
           end
       end
     end
@@ -337,16 +530,28 @@ Section gen.
          | 1 => ret PShare
          | 2 => fail D_UNMODELLED
          | 3 => let! p := build f ctx srcvar s (f_PointerInner e t) in ret (PRef false p)
-         | 4 => let! _ := note_ty t in let! a := assign_no_lookup f ctx srcvar false s t in ret (POfAssign t a)
-         | 5 => let! _ := note_ty t in let! a := assign_no_lookup f ctx srcvar false s t in ret (POfAssign t a)
-         | 6 => let! p := build f ctx srcvar s (f_PointerInner e t) in ret (PRef (aliasing srcvar p) p)
+         | 4 => if b_ctor st && cc_DefaultUpdate (bc_conf ctx)
+                then let! tv := target_var ctx s t in
+                     let! a := assign f ctx false LV_DEREF true (f_PointerInner e s) (f_PointerInner e t) in
+                     ret (of_assign tv t (AIfNotNil (ADerefTgt a)))
+                else let! tv := target_var ctx s t in let! a := assign_no_lookup f ctx srcvar false s t in ret (of_assign tv t a)
+         | 5 => if b_ctor st && cc_DefaultUpdate (bc_conf ctx)
+                then let! tv := target_var ctx s t in
+                     let! a := assign f ctx false LV_DEREF true (f_PointerInner e s) t in
+                     ret (of_assign tv t (AIfNotNil a))
+                else let! tv := target_var ctx s t in let! a := assign_no_lookup f ctx srcvar false s t in ret (of_assign tv t a)
+         | 6 => if b_ctor st
+                then let! tv := target_var ctx s t in
+                     let! a := assign f ctx false srcvar true s (f_PointerInner e t) in
+                     ret (of_assign tv t (ADerefTgt a))
+                else let! p := build f ctx srcvar s (f_PointerInner e t) in ret (PRef (aliasing srcvar p) p)
          | 7 => if f_Named e t || f_Named e s then (let! _ := note_ty t in ret PId) else ret PId
          | 8 => if negb (f_Named e s) && negb (f_Named e t) && match struct_fields e s, struct_fields e t with [], [] => true | _, _ => false end
                 then ret PId
-                else let! _ := note_ty t in let! a := struct_assign f ctx srcvar false s t in ret (POfAssign t a)
+                else let! tv := target_var ctx s t in let! a := struct_assign f ctx srcvar false s t in ret (of_assign tv t a)
          | 9 => let! _ := note_ty t in let! a := assign_no_lookup f ctx srcvar false s t in
                 ret (if f_ListFixed e s then PMakeList (f_ListInner e t) a else POfAssign t a)
-         | _ => let! _ := note_ty t in let! a := assign_no_lookup f ctx srcvar false s t in ret (POfAssign t a)
+         | _ => let! tv := target_var ctx s t in let! a := assign_no_lookup f ctx srcvar false s t in ret (of_assign tv t a)
          end) st
       end
     end
@@ -385,6 +590,48 @@ Section gen.
       | GOk additional =>
         let conf := bc_conf ctx in
         let tpkg := struct_pkg e t in
+        (* mapField: the selected source part, its type and l-value class; None = skip (ignoreMissing) *)
+        let map_field (name : rstr) (fm : fmap) (skip_missing : bool) : M (option (selector * ty * N)) :=
+          match fm_source fm with
+          | [46] => ret (Some (SelWhole, s, srcvar))
+          | src_path =>
+            let path_res : gres (option (list rstr)) :=
+              match src_path with
+              | [] => match find_field name (cc_MatchIgnoreCase conf) s additional with
+                      | FFOne p => GOk (Some p)
+                      | FFNone => if skip_missing then GOk None else GDiag D_NO_MATCH
+                      | FFAmbiguous => GDiag D_AMBIGUOUS
+                      end
+              | _ => GOk (Some (split_dot src_path))
+              end in
+            match path_res with
+            | GOk None => ret None
+            | GOk (Some path) =>
+              match walk_path path s false [] with
+              | GOk (steps, ft, crossed, None) =>
+                if crossed then
+                  if f_Pointer e ft then ret (Some (SelPath steps WKeepPtr, ft, LV_LOCAL))
+                  else ret (Some (SelPath steps WAddr, TPtr ft, LV_LOCAL))
+                else ret (Some (SelPath steps WNone, ft, lv_field srcvar))
+              | GOk (steps, recv, crossed, Some fi) =>
+                (* the path ends in a method of recv: method.Parse (no source parameters) + CallMethod *)
+                match fdecl_at fi with
+                | None => fun _ => GPanic 4
+                | Some d =>
+                  let rd := f_Pointer e recv in
+                  let! _ := call_method ctx (CFn fi) (fd_args d) None (fd_tgt d) (fd_err d) None (fd_tgt d) in
+                  let fl := fd_err d in
+                  let rt := fd_tgt d in
+                  if crossed then
+                    if f_Pointer e rt then ret (Some (SelMeth steps rd fi (fd_args d) fl WKeepPtr, rt, LV_LOCAL))
+                    else ret (Some (SelMeth steps rd fi (fd_args d) fl WAddr, TPtr rt, LV_LOCAL))
+                  else ret (Some (SelMeth steps rd fi (fd_args d) fl WNone, rt, LV_LOCAL))
+                end
+              | GDiag c => fail c | GPanic p => fun _ => GPanic p | GFuel => fun _ => GFuel
+              end
+            | GDiag c => fail c | GPanic p => fun _ => GPanic p | GFuel => fun _ => GFuel
+            end
+          end in
         (fix fields (fs : list (rstr * ty)) (defined : list rstr) (acc : list fplan) (st : bst) {struct fs} : gres (aplan * bst) :=
            match fs with
            | [] => match defined with
@@ -394,48 +641,48 @@ Section gen.
            | (name, fty) :: r =>
              let defined' := filter (fun n => negb (rstr_eqb n name)) defined in
              let fm := field_setting ctx t name in
+             let noted_of (sel : selector) (ns : ty) (guard : bool) : list ty :=
+               (match sel with SelPath _ WNone | SelWhole | SelMeth _ _ _ _ _ WNone => [] | _ => [ns] end) ++ (if guard && zero_renders ns then [ns] else []) in
              if fm_ignore fm then fields r defined' (FSkip :: acc) st
              else if negb (exported name) && cc_IgnoreUnexported conf then fields r defined' (FSkip :: acc) st
              else if negb (field_accessible name tpkg out_pkg) then GDiag D_UNEXPORTED
              else match fm_func fm with
-             | Some _ => GDiag D_UNMODELLED
-             | None =>
-               (* mapField *)
-               let sel_res : gres (option (selector * ty * N)) :=
-                 match fm_source fm with
-                 | [46] => GOk (Some (SelWhole, s, srcvar))
-                 | src_path =>
-                   let path_res : gres (option (list rstr)) :=
-                     match src_path with
-                     | [] => match find_field name (cc_MatchIgnoreCase conf) s additional with
-                             | FFOne p => GOk (Some p)
-                             | FFNone => if cc_IgnoreMissing conf then GOk None else GDiag D_NO_MATCH
-                             | FFAmbiguous => GDiag D_AMBIGUOUS
-                             end
-                     | _ => GOk (Some (split_dot src_path))
-                     end in
-                   match path_res with
-                   | GOk None => GOk None
-                   | GOk (Some path) =>
-                     match walk_path path s false [] with
-                     | GOk (steps, ft, crossed) =>
-                       if crossed then
-                         if f_Pointer e ft then GOk (Some (SelPath steps WKeepPtr, ft, LV_LOCAL))
-                         else GOk (Some (SelPath steps WAddr, TPtr ft, LV_LOCAL))
-                       else GOk (Some (SelPath steps WNone, ft, lv_field srcvar))
+             | Some fi =>
+               match fdecl_at fi with
+               | None => GPanic 4
+               | Some d =>
+                 match fd_src d with
+                 | Some dsrc =>
+                   match map_field name fm false st with
+                   | GOk (None, _) => GPanic 8
+                   | GOk (Some (sel, ns, lv), st1) =>
+                     if match fm_source fm with [46] => (srcvar =? LV_DEREF) && assignable dsrc (TPtr s) | _ => false end
+                     then GDiag D_UNMODELLED      (* the function receives the enclosing pointer (ParentPointer) *)
+                     else
+                     match call_fn ctx fi (Some ns) fty st1 with
+                     | GOk (p, st2) =>
+                       let guard := x_shouldCheckAgainstZero e conf ns fty is_update true in
+                       fields r defined' (FCall name (Some sel) guard p :: acc)
+                              {| b_tab := b_tab st2; b_names := b_names st2; b_seen := b_seen st2; b_types := noted_of sel ns guard ++ b_types st2; b_ctor := b_ctor st2 |}
                      | GDiag c => GDiag c | GPanic p => GPanic p | GFuel => GFuel
                      end
                    | GDiag c => GDiag c | GPanic p => GPanic p | GFuel => GFuel
                    end
-                 end in
-               match sel_res with
-               | GOk None => fields r defined' (FSkip :: acc) st
-               | GOk (Some (sel, ns, lv)) =>
+                 | None =>
+                   match call_fn ctx fi None fty st with
+                   | GOk (p, st2) => fields r defined' (FCall name None false p :: acc) st2
+                   | GDiag c => GDiag c | GPanic p => GPanic p | GFuel => GFuel
+                   end
+                 end
+               end
+             | None =>
+               match map_field name fm (cc_IgnoreMissing conf) st with
+               | GOk (None, st1) => fields r defined' (FSkip :: acc) st1
+               | GOk (Some (sel, ns, lv), st1) =>
                  let guard := x_shouldCheckAgainstZero e conf ns fty is_update false in
-                 let noted := (match sel with SelPath _ WNone | SelWhole => [] | _ => [ns] end) ++ (if guard && zero_renders ns then [ns] else []) in
-                 match assign f ctx false lv false ns fty {| b_tab := b_tab st; b_names := b_names st; b_seen := b_seen st; b_types := noted ++ b_types st |} with
+                 match assign f ctx false lv false ns fty {| b_tab := b_tab st1; b_names := b_names st1; b_seen := b_seen st1; b_types := noted_of sel ns guard ++ b_types st1; b_ctor := b_ctor st1 |} with
                  | GOk (a, st') =>
-                   fields r defined' (FAssign sel guard a :: acc) st'
+                   fields r defined' (FAssign name sel guard a :: acc) st'
                  | GDiag c => GDiag c | GPanic p => GPanic p | GFuel => GFuel
                  end
                | GDiag c => GDiag c | GPanic p => GPanic p | GFuel => GFuel
@@ -472,8 +719,8 @@ Section gen.
     | [] => GOk st
     | id :: r =>
       if is_dirty (b_tab st) id then
-        let st1 := {| b_tab := update_nth (N.to_nat id) (set_dirty false) (b_tab st); b_names := b_names st; b_seen := []; b_types := [] |} in
-        match build_method fuel id st1 with
+        let st1 := {| b_tab := update_nth (N.to_nat id) (set_dirty false) (b_tab st); b_names := b_names st; b_seen := []; b_types := []; b_ctor := false |} in
+        match build_method fuel id id st1 with
         | GOk (_, st2) => dirty_pass fuel r st2
         | GDiag c => GDiag c | GPanic p => GPanic p | GFuel => GFuel
         end
@@ -492,16 +739,21 @@ Section gen.
     end.
 
   (* declared method of a converter *)
-  Record decl_method := { dm_name : rstr; dm_src : ty; dm_tgt : ty; dm_update : bool; dm_conf : mconf }.
+  Record decl_method := { dm_name : rstr; dm_src : ty; dm_tgt : ty; dm_update : bool; dm_conf : mconf;
+                          dm_ctx : list ty; dm_err : bool }.
 
-  (* setupGenerator: Register rejects two declared methods with the same signature (no contexts in this fragment) *)
+  (* setupGenerator: Register rejects a declared method whose signature and contexts overlap with an earlier one
+     (either context set contained in the other) *)
   Fixpoint register_all (ms : list decl_method) (tab : table) : gres table :=
     match ms with
     | [] => GOk tab
     | m :: r =>
-      if negb (dm_update m) && has_method tab (dm_src m) (dm_tgt m) then GDiag D_OVERLAP_SIGNATURE
+      if negb (dm_update m) &&
+         existsb (fun x => sig_matches x (dm_src m) (dm_tgt m) && (ctx_sub (g_ctx x) (dm_ctx m) || ctx_sub (dm_ctx m) (g_ctx x))) tab
+      then GDiag D_OVERLAP_SIGNATURE
       else register_all r (tab ++ [ {| g_name := dm_name m; g_src := dm_src m; g_tgt := dm_tgt m; g_explicit := true; g_dirty := true;
-                                       g_update := dm_update m; g_conf := dm_conf m; g_origin := []; g_body := None; g_types := [] |} ])
+                                       g_update := dm_update m; g_conf := dm_conf m; g_origin := []; g_ctx := dm_ctx m; g_ret_err := dm_err m;
+                                       g_body := None; g_types := [] |} ])
     end.
 
   (* validateMethods: field settings only on struct / struct pointer targets (update methods are not in Exact) *)
@@ -516,7 +768,7 @@ Section gen.
     match register_all ms [] with
     | GOk tab =>
       if negb (validate tab) then GDiag D_FIELD_SETTING_TARGET
-      else match build_all GEN_PASSES GEN_FUEL {| b_tab := tab; b_names := [s2r "c"%string]; b_seen := []; b_types := [] |} with
+      else match build_all GEN_PASSES GEN_FUEL {| b_tab := tab; b_names := [s2r "c"%string]; b_seen := []; b_types := []; b_ctor := false |} with
            | GOk st => GOk (b_tab st)
            | GDiag c => GDiag c | GPanic s => GPanic s | GFuel => GFuel
            end
